@@ -1,19 +1,5 @@
-//@ C14/C05 — one simplex step.  is_optimal / find_h / find_t use lazy iterator chains Verus does not
-//@ take; their contracts are ASSUMED here and checked on the real functions by the bounded Kani unit
-//@ U14.select (labelled bounded).  pivot's contract is the one proved in U14.pivot.
-@fn Tableau::is_optimal @assumed -> r
-    requires tab_wf(*self),
-    ensures r == (forall|j: int| 0 <= j < self.c.len() ==> t_ge(rv(#[trigger] self.c[j]), 0real, EPS())),
-@fn Tableau::find_h @assumed -> r
-    requires tab_wf(*self),
-    ensures
-        r matches Some(h) ==> h < self.c.len() && !self.in_basis@.contains(h) && t_lt(rv(self.c[h as int]), 0real, EPS()),
-        r is None ==> forall|j: int| 0 <= j < self.c.len() ==> self.in_basis@.contains(j as usize) || !t_lt(rv(#[trigger] self.c[j]), 0real, EPS()),
-@fn Tableau::find_t @assumed -> r
-    requires tab_wf(*self), h < self.c.len(),
-    ensures
-        r matches Some(tr) ==> ratio_ok(*self, h as int, tr.0 as int, tr.1),
-        r is None ==> forall|i: int| 0 <= i < self.a.len() ==> !t_gt(rv((#[trigger] self.a[i])[h as int]), 0real, EPS()),
+//@ C14/C05 — one simplex step.  The contracts of is_optimal / find_h / find_t are the ones proved in U14.ratio (their iterator chains are
+//@ read through rules R37, R51, R60, R61), pivot's contract is the one proved in U14.pivot.
 @fn Tableau::step_inner -> res
     requires tab_wf(*old(self)),
     ensures
